@@ -206,6 +206,19 @@ theorem assigned_states_from_source :
     endPgmStates = [goName .completed, goName .completed, goName .completed] ∧
     barrierStates = [goName .atBarrier] ∧ vectorResponsesPerCycle = 16 := by decide
 
+/-- **The vector memory unit's configurations.** `C14.Vmu.r9nano` / `mi300a` of
+    `Props/C14Vmu.lean` are the `cu.MakeBuilder` defaults and the constants of the mi300a platform
+    builder (lanes, stages, post-pipeline buffer; port capacity of `NewComputeUnit`; 16 requests per
+    cycle in `sendRequest`; `cyclePerStage = 1`; `Run` = send, tick, insert). -/
+theorem vmu_configurations_from_source :
+    vmuDefault = (10, 1, 8) ∧ vmuMI300A = (4, 8, 64, 3) ∧ cyclePerStage = 1 ∧ vmuBurst = 16 ∧
+    (portCap "ToVectorMem").map (·.2) = some 64 ∧
+    vmuRunOrder = ["u.sendRequest", "u.transactionPipeline.Tick", "u.instToTransaction", "u.instructionPipeline.Tick"] ∧
+    (∀ c s, Vmu.cycle c s = Vmu.insert c
+      { Vmu.send c c.burst s with lanes := (Vmu.tick c.buf (Vmu.send c c.burst s).lanes (Vmu.send c c.burst s).post).1
+                                  post := (Vmu.tick c.buf (Vmu.send c c.burst s).lanes (Vmu.send c c.burst s).post).2 }) :=
+  ⟨by decide, by decide, by decide, by decide, by decide, by decide, fun _ _ => rfl⟩
+
 /-- the audited sources of the hand-transcribed functions -/
 def auditedFuncs : List (String × String × String) := [
   ("amd/timing/cu/scheduler.go", "SchedulerImpl.Run", "5828805e59205f9d"),
@@ -253,10 +266,20 @@ def auditedFuncs : List (String × String × String) := [
   ("amd/timing/cu/computeunit.go", "ComputeUnit.sendInstFetchShadowBufferAccesses", "1107a4bdde657f21"),
   ("amd/timing/cu/computeunit.go", "ComputeUnit.populateShadowBuffers", "fa78f27b34b4b3ec"),
   ("amd/timing/cu/computeunit.go", "ComputeUnit.setWavesToReady", "bcddb11cd1a6b65a"),
+  ("amd/timing/cu/vectormemoryunit.go", "VectorMemoryUnit.Run", "c68373828b92cc9a"),
+  ("amd/timing/cu/vectormemoryunit.go", "VectorMemoryUnit.instToTransaction", "f4606185f9b0f95b"),
+  ("amd/timing/cu/vectormemoryunit.go", "VectorMemoryUnit.insertTransactionToPipeline", "edbb8ced131689b0"),
+  ("amd/timing/cu/vectormemoryunit.go", "VectorMemoryUnit.computeCoalescingPenalty", "6d6fe2b42397dad9"),
   ("amd/timing/cu/vectormemoryunit.go", "VectorMemoryUnit.executeFlatLoad", "2efb11ce5908e120"),
   ("amd/timing/cu/vectormemoryunit.go", "VectorMemoryUnit.executeFlatStore", "f5c6a23b598e601d"),
   ("amd/timing/cu/vectormemoryunit.go", "VectorMemoryUnit.sendRequest", "abedfff17c9cb257"),
   ("amd/timing/cu/vectormemoryunit.go", "VectorMemoryUnit.Flush", "258c99a10c031999"),
+  ("akita/pipelining/pipeline.go", "pipelineImpl.Clear", "d311a0e343aa8e2a"),
+  ("akita/pipelining/pipeline.go", "pipelineImpl.Tick", "e5a6b9e4c8b58d73"),
+  ("akita/pipelining/pipeline.go", "pipelineImpl.tryMoveToPostPipelineBuffer", "c9672880c4bfed18"),
+  ("akita/pipelining/pipeline.go", "pipelineImpl.tryMoveToNextStage", "d09127340bbde180"),
+  ("akita/pipelining/pipeline.go", "pipelineImpl.CanAccept", "2c250fbe8ee7c6da"),
+  ("akita/pipelining/pipeline.go", "pipelineImpl.Accept", "bc1c2fe5931f1d05"),
   ("amd/emu/computeunit.go", "ComputeUnit.runWG", "a284127e1bf586b9"),
   ("amd/emu/computeunit.go", "ComputeUnit.isAllWfCompleted", "c9519dafe303ca18"),
   ("amd/emu/computeunit.go", "ComputeUnit.resolveBarrier", "b8d70b499d09d44f")]
